@@ -49,6 +49,12 @@ def streams(tier, rng, P, only=None, cases=None):
                  'Lyric={"la\r\n"} c\n\n\r\n', "STR S={c\r\nd} S\r\n", 'Copyright={"x\ty \u3000z"}\tc', "c \u2028 d", 'TrackName={"a\r\n\r\nb"} r c\r']
         for _ in range(40 if big else 8):
             srcs.append(mml.pr(mml.gen_program(rng, depth=2, maxlen=6), sep="\r\n") + rng.choice(["\r\n", "", "\r"]) + rng.choice(['TrackName={"p\r\nq"}', 'Text{"x\r\n"}', ""]))
+        # PlayFrom / `?` after several controllers and programs on one or more channels: the values re-issued at the point come in one order
+        srcs += ["TR=1 CH=1 y1,10 y7,100 y10,20 y11,90 y91,40 y93,30 @5 c d ? e f", "y7,100 y10,20 c PlayFrom(1:2:0) d e f",
+                 "CH=3 y7,90 @9 CH=5 y7,80 y1,2 @3 c r ? d", "TR=2 y64,127 y7,1 y11,2 c TR=3 y10,5 y91,6 d TIME(2:1:0) ? e"]
+        for _ in range(30 if big else 6):
+            ccs = rng.sample(range(0, 128), rng.randrange(2, 9))
+            srcs.append(" ".join("y%d,%d" % (no, rng.randint(0, 127)) for no in ccs) + " @%d c d %s e" % (rng.randint(1, 128), rng.choice(["?", "PlayFrom(1:3:0)", "TIME(1:2:0) ?"])))
         srcs += [s for s in mml.sample_sources()]
         # variants: entry x debug x lang, each in nproc fresh processes
         variants = [(e, d, l) for e in ("lib", "midi", "obj") for d in (0, 1) for l in ("en", "ja")]
